@@ -161,7 +161,7 @@ CHECKS = {
         tests=[
             dict(name="TestC06Witness", quick=dict(timeout=600), thorough=dict(timeout=600)),
             dict(name="TestC06Merge", quick=dict(checks=80, shards=4, timeout=900), thorough=dict(checks=3000, shards=6, timeout=3400)),
-            dict(name="TestC06E2E", quick=dict(checks=9, shards=10, timeout=900), thorough=dict(checks=250, shards=10, timeout=3400)),
+            dict(name="TestC06E2E", quick=dict(checks=8, shards=10, timeout=900), thorough=dict(checks=250, shards=10, timeout=3400)),
         ]),
     "C02": dict(
         pkg="c02", level="exploration", bins=["dcat", "dgrep"], helpers=["vserver"],
